@@ -188,6 +188,46 @@ func checkC15(e *core.Env) {
 	e.Assume("registries are used from one goroutine (documented as not concurrency-safe)")
 	n := e.N(4000, 60000)
 	e.Cases("history", n, func(i int, r *rand.Rand) {
+		// the history runs in a goroutine of its own: a registry operation that never returns (say, a lock left
+		// held by a refused registration) is reported with its goroutine dump instead of stopping the run
+		if c15Hung[i%4] {
+			e.Count("histories_skipped_after_hang", 1)
+			return
+		}
+		done := make(chan struct{})
+		tname := ""
+		var trace []string
+		go c15History(e, i, r, &tname, &trace, done)
+		if finished, stuck, dump := waitDoneOrStuck(done, watchdog); !finished {
+			if stuck {
+				c15Hung[i%4] = true
+				e.Violate("registry/"+tname+"/never-returns", "a registry operation never returned: the goroutine running this history is parked for good in "+lastOf(trace), map[string]any{"target": tname, "ops": trace, "goroutines": trunc(dump, 12000)})
+			} else {
+				e.Inconclusive("C15 history %d on %s did not finish within the watchdog", i, tname)
+			}
+		}
+	})
+}
+
+func appendTrace(t *[]string, s string) []string {
+	*t = append(*t, s)
+	return *t
+}
+
+// registrars on which an operation never returned are not used again in this run (every further history on
+// them would only wait for the same verdict)
+var c15Hung = map[int]bool{}
+
+func lastOf(trace []string) string {
+	if len(trace) == 0 {
+		return "(no operation yet)"
+	}
+	return trace[len(trace)-1]
+}
+
+func c15History(e *core.Env, i int, r *rand.Rand, tnameOut *string, traceOut *[]string, done chan struct{}) {
+	defer close(done)
+	{
 		target := i % 4
 		var reg registrar
 		var hm grpchan.HandlerMap
@@ -211,6 +251,7 @@ func checkC15(e *core.Env) {
 			hsrv = httpgrpc.NewServer(httpgrpc.WithBasePath(hbase))
 			reg, tname = hsrv, "httpgrpc.Server"
 		}
+		*tnameOut = tname
 		ref := grpc.NewServer()
 		model := map[string]regEntry{}
 		var names []string
@@ -230,7 +271,7 @@ func checkC15(e *core.Env) {
 				d := genServiceDesc(r, name, ht)
 				if r.Intn(6) == 0 {
 					h := badHandler(r, ht)
-					trace = append(trace, fmt.Sprintf("register-illtyped %s %T", name, h))
+					trace = appendTrace(traceOut, fmt.Sprintf("register-illtyped %s %T", name, h))
 					if p, _ := tryRegister(reg, d, h); !p {
 						fail("illtyped-accepted", fmt.Sprintf("handler of type %T registered for interface %v without panic", h, reflect.TypeOf(ht).Elem()))
 						return
@@ -242,7 +283,7 @@ func checkC15(e *core.Env) {
 					continue
 				}
 				h := goodHandler(r, ht)
-				trace = append(trace, fmt.Sprintf("register %s (%d unary, %d streams) %T", name, len(d.Methods), len(d.Streams), h))
+				trace = appendTrace(traceOut, fmt.Sprintf("register %s (%d unary, %d streams) %T", name, len(d.Methods), len(d.Streams), h))
 				if p, v := tryRegister(reg, d, h); p {
 					fail("valid-refused", fmt.Sprintf("valid registration panicked: %v", v))
 					return
@@ -266,7 +307,7 @@ func checkC15(e *core.Env) {
 						h = goodHandler(r, old.desc.HandlerType)
 					}
 				}
-				trace = append(trace, fmt.Sprintf("register-duplicate %s sameDesc=%v sameHandler=%v", name, d == old.desc, h == old.handler))
+				trace = appendTrace(traceOut, fmt.Sprintf("register-duplicate %s sameDesc=%v sameHandler=%v", name, d == old.desc, h == old.handler))
 				if p, _ := tryRegister(reg, d, h); !p {
 					fail("duplicate-accepted", fmt.Sprintf("second registration for %s (same descriptor=%v, same handler=%v) did not panic", name, d == old.desc, h == old.handler))
 					return
@@ -285,7 +326,7 @@ func checkC15(e *core.Env) {
 				} else {
 					q = pick(r, "", "nope", "pkg0.", ".")
 				}
-				trace = append(trace, "query "+q)
+				trace = appendTrace(traceOut, "query "+q)
 				d, h := hm.QueryService(q)
 				want, ok := model[q]
 				if ok && (!sameDesc(d, want.desc, viaView) || h != want.handler) {
@@ -297,7 +338,7 @@ func checkC15(e *core.Env) {
 					return
 				}
 			case op == 8 && hm != nil: // iterate
-				trace = append(trace, "foreach")
+				trace = appendTrace(traceOut, "foreach")
 				seen := map[string]int{}
 				bad := ""
 				hm.ForEach(func(d *grpc.ServiceDesc, h interface{}) {
@@ -321,18 +362,28 @@ func checkC15(e *core.Env) {
 					return
 				}
 			default: // info
-				trace = append(trace, "info")
+				trace = appendTrace(traceOut, "info")
 				got := infoSource(reg, hm).GetServiceInfo()
 				if d := diffInfo(got, ref.GetServiceInfo()); d != "" {
 					fail("info-differs", "GetServiceInfo differs from grpc.Server: "+d)
 					return
 				}
 				// the result is a snapshot: damaging it must not affect later calls
+				how := r.Intn(4)
 				for k2, v := range got {
 					for j := range v.Methods {
 						v.Methods[j].Name = "clobbered"
 					}
-					delete(got, k2)
+					switch how {
+					case 0: // emptied
+						delete(got, k2)
+					case 1: // same size, other names
+						delete(got, k2)
+						got[k2+".renamed-by-the-caller"] = v
+					case 2: // same names, trimmed
+						v.Methods, v.Metadata = nil, "cleared by the caller"
+						got[k2] = v
+					}
 				}
 			}
 		}
@@ -357,7 +408,7 @@ func checkC15(e *core.Env) {
 		if i < 3 {
 			e.Sample(map[string]any{"target": tname, "ops": trace})
 		}
-	})
+	}
 }
 
 // sameDesc: identity for direct registrations; for registrations through a decorating view the stored
